@@ -156,6 +156,16 @@ func EvalG(g G, v Val, bs []binding) (bool, error) {
 		return EvalG(n.B, v, bs)
 	case GCut:
 		return false, fmt.Errorf("recursion cut reached in guard (%s)", n.Fn)
+	case GAny:
+		over := resolve(n.Over, bs)
+		for i, cnt := 0, v.Len(over); i < cnt; i++ {
+			nb := append(append([]binding{}, bs...), binding{pattern: n.Elem, concrete: fmt.Sprintf("%s[%d]", over, i)})
+			ok, err := EvalG(n.Body, v, nb)
+			if err != nil || ok {
+				return ok, err
+			}
+		}
+		return false, nil
 	case GIdx:
 		elem := resolve(n.Elem, bs) // outer bindings applied; the binding for this repetition has pattern == n.Elem (after outer resolution)
 		for i := len(bs) - 1; i >= 0; i-- {
@@ -242,6 +252,9 @@ func CollectLeaves(t T) *Leaves {
 			wg(n.B)
 		case GCut:
 			l.Cuts++
+		case GAny:
+			l.Slices[n.Over] = true
+			wg(n.Body)
 		}
 	}
 	wt = func(t T) {
@@ -359,6 +372,8 @@ func GString(g G) string {
 		return "(" + GString(n.C) + " ? " + GString(n.A) + " : " + GString(n.B) + ")"
 	case GCut:
 		return "CUT"
+	case GAny:
+		return "any(" + n.Elem + "){" + GString(n.Body) + "}"
 	case GIdx:
 		return fmt.Sprintf("idx(%s)%s%d", n.Elem, n.Op, n.K)
 	}
